@@ -68,6 +68,8 @@ type lfEv struct {
 	msg   string
 	op    int
 	path  string // post+ only: stop path, derived from the call stack of the goroutine running PostStop
+	// post+ only: tracked actors whose stop was in progress (stoppingState/passivatingState) then
+	stoppingNow []string
 }
 
 func (e lfEv) String() string {
@@ -414,7 +416,15 @@ func (a *lfActor) PostStop(*Context) error {
 	w.mu.Lock()
 	a.postStopping = true
 	w.mu.Unlock()
-	w.logEv(lfEv{kind: lfPostEnter, actor: a.name, inst: a.inst, inc: inc, path: lfStopPath(w.sys)})
+	var stoppingNow []string
+	w.mu.Lock()
+	for n, p := range w.track {
+		if p != nil && p.IsStopping() {
+			stoppingNow = append(stoppingNow, n)
+		}
+	}
+	w.mu.Unlock()
+	w.logEv(lfEv{kind: lfPostEnter, actor: a.name, inst: a.inst, inc: inc, path: lfStopPath(w.sys), stoppingNow: stoppingNow})
 	w.wait(a, "post", "", false)
 	if w.postExitHook != nil {
 		w.postExitHook(a)
@@ -675,6 +685,28 @@ func (w *lfWorld) loop(c *vsched.Chooser, maxSteps int, extra func() []lfEvent, 
 			w.addViol(inv()...)
 		}
 	}
+}
+
+// lfGuard runs body (the root function of a bubble); a panic is turned into an invalid outcome and
+// the world is torn down so that the bubble can still end without blocked goroutines.
+func lfGuard(w *lfWorld, out *vsched.Outcome, body func()) {
+	defer func() {
+		if p := recover(); p != nil {
+			if d, ok := p.(vsched.Divergence); ok {
+				defer panic(d)
+			}
+			buf := make([]byte, 16<<10)
+			n := runtime.Stack(buf, false)
+			out.Invalid = fmt.Sprintf("panic in harness/bubble root: %v\n%s", p, buf[:n])
+			func() {
+				defer func() { _ = recover() }()
+				if w.sys != nil {
+					w.teardown()
+				}
+			}()
+		}
+	}()
+	body()
 }
 
 // teardown: release everything, let client goroutines return, stop the system.
